@@ -2,7 +2,10 @@
 
 package sftp
 
-import "encoding"
+import (
+	"encoding"
+	"io"
+)
 
 func vSamePage(a, b []byte) bool { return &a[0] == &b[0] }
 
@@ -297,4 +300,36 @@ func vReqDiff(k int) {
 	on := run(true)
 	vAssert(vBytesEq(off, on), kn+": allocator on/off give byte-identical responses")
 	vEmit("typ", int(on[4]))
+}
+
+// construction: the option enables ONE allocator for both the receive side
+// (conn) and the packet manager - pages handed out for incoming packets are
+// the pages the manager releases; without the option there is none
+//
+//verif:noleakcheck
+func vh_C18_constructors() {
+	rwc := struct {
+		io.Reader
+		io.WriteCloser
+	}{&vReader{}, &vBuf{}}
+	on := vNondetBool()
+	if vNondetBool() {
+		var opts []ServerOption
+		if on {
+			opts = append(opts, WithAllocator())
+		}
+		s, err := NewServer(rwc, opts...)
+		vAssert(err == nil && s != nil, "NewServer")
+		vAssert((s.pktMgr.alloc != nil) == on && s.serverConn.conn.alloc == s.pktMgr.alloc, "Server: one allocator for receive side and packet manager, iff enabled")
+		close(s.pktMgr.fini)
+	} else {
+		var opts []RequestServerOption
+		if on {
+			opts = append(opts, WithRSAllocator())
+		}
+		rs := NewRequestServer(rwc, Handlers{vH{}, vH{}, vH{}, vH{}}, opts...)
+		vAssert(rs != nil, "NewRequestServer")
+		vAssert((rs.pktMgr.alloc != nil) == on && rs.serverConn.conn.alloc == rs.pktMgr.alloc, "RequestServer: one allocator for receive side and packet manager, iff enabled")
+		close(rs.pktMgr.fini)
+	}
 }
